@@ -92,6 +92,14 @@ CHECKS = {
           "requested protection while guard and header pages never change; free first makes the mapping read-write. The tie logs the real system calls (link-time wrappers) for every size 0..3 pages+1 and compares "
           "them, the user offset, fill and canary with the model; forked children probe the byte past the end, each canary byte, and all 120 protection histories of length <= 4 with read, write and free probes."),
     note=NOTE_COMMON + "kernel page-fault behaviour and raise()/abort() are observed, not proved; page size 4096 on this host."),
+ "C20": dict(
+    category="proof", design_ref="DESIGN.md §3.20",
+    technique="Lean 4 theorems over allocation programs quantified over every failure oracle (fail-closed, balanced alloc/free, no double free) + exhaustive single- and suffix-fault injection through link-time allocator wrappers",
+    text=("The allocation/free sequences of argon2_hash, argon2_verify, needs_rehash, the scrypt region handling and sodium_malloc are modelled as programs over an oracle telling which request succeeds. Lean proves for "
+          "EVERY oracle (every fault schedule): a failed request implies return code -1, string verification never reports a match, success implies all requests succeeded, every obtained block is released exactly "
+          "once and nothing is released twice. The tie wraps malloc/calloc/posix_memalign/mmap/free/munmap at link time and, for 23 entry points (raw, str, str_verify right/wrong password, needs_rehash, both "
+          "algorithms and scrypt, guarded allocation), fails every request position alone and all from it on; return code, the full event sequence, live-block count and hash-string production must equal the model."),
+    note=NOTE_COMMON + "failure is injected at the C library boundary; kernel OOM behaviour is out of scope."),
 }
 
 NOT_YET = {}
